@@ -56,6 +56,8 @@ GO
   cat > "$ID/zz_verif_yield.go.new" <<'GO'
 package portalwire
 
+import "github.com/ethereum/go-ethereum/p2p/enode"
+
 // Added by the verification build overlay only (not part of the repository).
 
 // VerifTableYieldHook is called at every yield point of the instrumented routing table.
@@ -65,6 +67,11 @@ func VerifYieldTable(site string) {
 	if h := VerifTableYieldHook; h != nil {
 		h(site)
 	}
+}
+
+// VerifAppendBucketNodes is what handleFindNodes calls per requested distance.
+func (tab *Table) VerifAppendBucketNodes(dist uint, result []*enode.Node, checkLive bool) []*enode.Node {
+	return tab.appendBucketNodes(dist, result, checkLive)
 }
 
 // VerifProtoYieldHook is called at every yield point of the instrumented offer path.
